@@ -6,11 +6,9 @@ import (
 	"context"
 	"crypto/tls"
 	"fmt"
-	"net"
 	"strconv"
 	"strings"
 	"sync"
-	"time"
 
 	"github.com/caddyserver/certmagic"
 	"github.com/klauspost/cpuid"
@@ -93,12 +91,9 @@ func c06HandshakeEval(f []string) (string, []string) {
 	if err != nil || tc == nil {
 		return "fail", append(tags, "trivial-no-tls-listener")
 	}
-	cconn, sconn := net.Pipe()
+	cconn, sconn := c06MemPipe()
 	defer cconn.Close()
 	defer sconn.Close()
-	deadline := time.Now().Add(5 * time.Second)
-	cconn.SetDeadline(deadline)
-	sconn.SetDeadline(deadline)
 	server := tls.Server(sconn, tc)
 	serr := make(chan error, 1)
 	go func() {
